@@ -141,6 +141,12 @@ type vclock struct {
 	delivered int       // ticks put into a timer channel
 	stopFalse int       // Stop() calls on a timer whose tick had been delivered (cron drains it)
 	log       *glog
+	// gate: the next NewTimer call is held (after the timer has been created and logged) until
+	// ReleaseGate — the caller is the scheduler goroutine on its way back into its select
+	gateArmed  bool
+	gateParked bool
+	gateCh     chan struct{}
+	gateDl     int64
 }
 
 var _ kclock.Clock = (*vclock)(nil)
@@ -218,7 +224,40 @@ func (c *vclock) NewTimer(d time.Duration) kclock.Timer {
 	if c.log != nil {
 		c.log.add(rec{kind: "timer", dl: tm.dl, clk: now})
 	}
+	c.mu.Lock()
+	if c.gateArmed {
+		c.gateArmed, c.gateParked, c.gateDl = false, true, tm.dl
+		ch := make(chan struct{})
+		c.gateCh = ch
+		c.mu.Unlock()
+		<-ch
+		return tm
+	}
+	c.mu.Unlock()
 	return tm
+}
+
+func (c *vclock) ArmGate() {
+	c.mu.Lock()
+	c.gateArmed = true
+	c.mu.Unlock()
+}
+
+// GateParked: is the scheduler goroutine held inside NewTimer? (and the held timer's deadline)
+func (c *vclock) GateParked() (bool, int64) {
+	c.mu.Lock()
+	defer c.mu.Unlock()
+	return c.gateParked, c.gateDl
+}
+
+func (c *vclock) ReleaseGate() {
+	c.mu.Lock()
+	c.gateArmed = false
+	if c.gateParked {
+		c.gateParked = false
+		close(c.gateCh)
+	}
+	c.mu.Unlock()
 }
 
 func (c *vclock) After(d time.Duration) <-chan time.Time { return c.NewTimer(d).C() }
